@@ -184,6 +184,18 @@ def audit(prop_mods):
     return res, problems
 
 
+def leanchecker(prop_mods):
+    """thorough tier: the compiled property modules re-checked by Lean's independent checker (replays every declaration of the
+    modules through the kernel). returns a list of problems"""
+    import shutil
+    if shutil.which("leanchecker") is None:
+        return ["leanchecker is not on PATH"]
+    p, dt = run(["lake", "env", "leanchecker"] + list(prop_mods), cwd=LEAN, timeout=3000)
+    if p.returncode != 0:
+        return [f"leanchecker rejects {' '.join(prop_mods)}: {(p.stdout or '')[-300:]}"]
+    return []
+
+
 # --------------------------------------------------------------------------- Rust side
 
 def cargo_build():
